@@ -124,7 +124,7 @@ func verifMonitor20(backoff bool) (*verifMgr20, *Monitor, *monitoredChannel, dat
 // channel (accept / complete timeouts armed, no backoff); afterwards every timer that is still
 // live fires and the monitor is shut down.
 //
-//verif:opts race preempt=sync sched=4 part0=6 part1=2 novalidate
+//verif:opts race preempt=sync pb=1 sched=2 part0=6 part1=2 novalidate
 func VerifC20_MonitorConcurrent() {
 	d, m, mc, chid := verifMonitor20(false)
 	a, b := zz.Choice("opA", verifNumOps20), zz.Choice("opB", verifNumOps20)
@@ -144,7 +144,7 @@ func VerifC20_MonitorConcurrent() {
 // progress is waiting on a timer while the second operation runs; three operations.
 //
 //verif:tier thorough
-//verif:opts race preempt=sync sched=4 part0=6 part1=2 novalidate
+//verif:opts race preempt=sync pb=1 sched=2 part0=6 part1=2 novalidate
 func VerifC20_MonitorConcurrentBackoff() {
 	d, m, mc, chid := verifMonitor20(true)
 	a, b, c := zz.Choice("opA", verifNumOps20), zz.Choice("opB", verifNumOps20), zz.Choice("opC", verifNumOps20)
